@@ -441,7 +441,8 @@ pub fn c08(thorough: bool, seed: u64) -> CheckOutput {
     let n_cfg = if thorough { 1200 } else { 120 };
     let n_sampled = if thorough { 60 } else { 12 };
     let sp = Space {
-        ranges: vec![(0, 0), (1, 1), (2, 9), (10, 50), (60, 300), (7, 3)],
+        // memo-rich ranges included: state carried across calls tends to live in the memo
+        ranges: vec![(0, 0), (1, 1), (2, 9), (10, 50), (60, 300), (7, 3), (300, 600), (300, 600), (800, 1200)],
         ..Space::full()
     };
     let ex = &exhaustive;
@@ -457,7 +458,7 @@ pub fn c08(thorough: bool, seed: u64) -> CheckOutput {
                 cfg.entropy = Entropy::Seed(rng.next());
             }
             let inputs = vec![fuzz_bytes(&mut rng), {
-                let n = rng.below(2000) as usize;
+                let n = 1500 + rng.below(3000) as usize;
                 rng.bytes(n)
             }];
             for h in ex {
